@@ -41,6 +41,7 @@ type Contract struct {
 	IsIface   bool // contract on an interface method (used at invoke sites)
 	Refines   string // key of the concrete method whose proved contract an interface contract restates
 	Exports   []Clause // named post-state values (Label = name)
+	Created   []Clause // closure contracts: conditions checked where the closure value is made
 	IsFuncType bool // contract on calls through values of a named func type
 	Params    []string
 	Results   []string
@@ -300,6 +301,15 @@ func ParseContracts(pkgPath, file string, text string) ([]*Contract, []*Def, err
 				return nil, nil, fail(d, err)
 			}
 			cur.Ensures = append(cur.Ensures, cl)
+		case "created":
+			// created requires <expr>: on a closure contract; checked at the point
+			// where the closure value is made, in the parent's context
+			txt := strings.TrimSpace(strings.TrimPrefix(strings.TrimSpace(d.text), "requires"))
+			cl, err := mkClause(label, txt, d.line)
+			if err != nil {
+				return nil, nil, fail(d, err)
+			}
+			cur.Created = append(cur.Created, cl)
 		case "export":
 			// export <name> = <int expr over params/results>: a value of the post-state
 			// of every call, readable at call sites of the caller as exported(sel, name)
